@@ -2,6 +2,7 @@
    (internal/holsterv4/collections/ttlmap.go): entries expire at whole seconds, Get deletes an expired
    entry, Set updates an existing entry's value and expiry or inserts after freeSpace when at capacity. *)
 From Oxy Require Import Base.Prelude Model.Bucket.
+From Oxy Require Gen.Consts.
 Open Scope Z_scope.
 
 Definition second : Z := 1000000000.
@@ -60,7 +61,8 @@ Definition ttl_set (cap now : Z) (m : ttlmap) (k : Z) (v : bset) (ttl hint : Z) 
 Record cfg := { capacity : Z; rates : list rate }.
 Record st := { now : Z; tmap : ttlmap; last_delay : Z }.
 
-Definition ttl_of (s : bset) : Z := (max_period s / second) * 10 + 1.
+(* ttl in seconds; the two numbers are re-extracted from tokenlimiter.go on every run (Gen/Consts.v) *)
+Definition ttl_of (s : bset) : Z := (max_period s / second) * Consts.ttlPerSecondOfPeriod + Consts.ttlExtraSeconds.
 
 (* consumeRates for one request: returns the new state, the decision and the evicted source (-1 = none) *)
 Definition consume_rates (c : cfg) (s : st) (src amount hint : Z) : st * set_outcome * Z :=
